@@ -23,7 +23,7 @@ SJ == [cfg |-> cfg, now |-> now, nid |-> nextId, ntx |-> nextTx, lag |-> lag,
        owned |-> {[id |-> i, v |-> owned[i].v, m |-> owned[i].m] : i \in DOMAIN owned},
        locked |-> {[id |-> i, e |-> locked[i]] : i \in DOMAIN locked},
        txs |-> {[tid |-> t, ver |-> txs[t].ver, st |-> txs[t].st, ins |-> txs[t].ins, made |-> txs[t].made,
-                 out |-> txs[t].out, fee |-> txs[t].fee, exp |-> txs[t].exp, bl |-> txs[t].bl] : t \in TxIds}]
+                 out |-> txs[t].out, fee |-> txs[t].fee, exp |-> txs[t].exp, bl |-> txs[t].bl, rec |-> txs[t].rec] : t \in TxIds}]
 OJ == [sp |-> BalSpendable, conf |-> BalConfirmed, imm |-> BalImmature, unc |-> BalUnconfirmed,
        list |-> ListSpendable]
 
@@ -111,7 +111,7 @@ PolicyNext ==
     \/ PolicyFund
     \/ PolicyRedist
     \/ PolicySplit
-    \/ \E t \in TxIds : Release(t) \/ BcastAcc(t) \/ BcastRej(t)
+    \/ \E t \in TxIds : Release(t) \/ \E pre \in BOOLEAN : BcastAcc(t, pre) \/ BcastRej(t, pre)
     \/ Tick
     \/ Mine
     \/ \E x \in Rewards : Reward(x, nextId)
